@@ -692,7 +692,8 @@ func (d *Data) cleaveIndex(v dvid.VersionID, op labels.CleaveOp, info dvid.ModIn
 
 // ChangeLabelIndex applies changes to a label's index and then stores the result.
 // Supervoxel size changes for blocks should be passed into the function.  The passed
-// SupervoxelDelta can contain more supervoxels than the label index.
+// SupervoxelChanges must only contain supervoxels that map to the given label; they
+// need not be in the label index yet.
 func ChangeLabelIndex(d dvid.Data, v dvid.VersionID, label uint64, delta labels.SupervoxelChanges) error {
 	shard := label % numIndexShards
 	indexMu[shard].Lock()
@@ -933,22 +934,31 @@ type blockChange struct {
 // mutex-guarded label index mutation routine.
 func (d *Data) aggregateBlockChanges(v dvid.VersionID, svmap *VCache, ch <-chan blockChange) {
 	mappedVersions := svmap.getMappedVersionsDist(v)
-	labelset := make(labels.Set)
-	svChanges := make(labels.SupervoxelChanges)
+	// Changes are segregated by the label each supervoxel maps to.  The mapping, not the current
+	// content of a label index, decides which index a supervoxel belongs to: a supervoxel whose
+	// voxels were all overwritten is gone from its label's index but keeps its mapping.
+	labelChanges := make(map[uint64]labels.SupervoxelChanges)
 	var maxLabel uint64
 	for change := range ch {
 		for supervoxel, delta := range change.delta {
+			if supervoxel > maxLabel {
+				maxLabel = supervoxel
+			}
+			label, _ := svmap.mapLabel(supervoxel, mappedVersions)
+			if label == 0 {
+				continue // supervoxel was retired by a split and belongs to no label
+			}
+			svChanges, found := labelChanges[label]
+			if !found {
+				svChanges = make(labels.SupervoxelChanges)
+				labelChanges[label] = svChanges
+			}
 			blockChanges, found := svChanges[supervoxel]
 			if !found {
 				blockChanges = make(map[dvid.IZYXString]int32)
 				svChanges[supervoxel] = blockChanges
 			}
 			blockChanges[change.bcoord] += delta
-			if supervoxel > maxLabel {
-				maxLabel = supervoxel
-			}
-			label, _ := svmap.mapLabel(supervoxel, mappedVersions)
-			labelset[label] = struct{}{}
 		}
 	}
 	go func() {
@@ -957,7 +967,7 @@ func (d *Data) aggregateBlockChanges(v dvid.VersionID, svmap *VCache, ch <-chan 
 		}
 	}()
 	if d.IndexedLabels {
-		for label := range labelset {
+		for label, svChanges := range labelChanges {
 			if err := ChangeLabelIndex(d, v, label, svChanges); err != nil {
 				dvid.Errorf("indexing label %d: %v\n", label, err)
 			}
